@@ -27,10 +27,15 @@ MkRS(kf, kg) ==
                        [name |-> S("r3"), expr |-> Call(S("g"), Call(S("f"), Val(I(5))))],
                        \* reaches an unregistered function / symbol only when a < 2: a failed evaluation must not change later ones
                        [name |-> S("r4"), expr |-> If(Bin("lt", A, Val(I(2))), Call(S("nofn"), A), Bin("add", A, Val(I(1))))],
-                       [name |-> S("r5"), expr |-> Bin("or", Bin("gt", A, Val(I(1))), Bin("eq", Sym(S("nosym")), A))] >>, 1, NRules),
+                       [name |-> S("r5"), expr |-> Bin("or", Bin("gt", A, Val(I(1))), Bin("eq", Sym(S("nosym")), A))],
+                       \* reads neither the input nor a function: its value depends on THIS ruleset's symbol table only
+                       [name |-> S("r6"), expr |-> Bin("mult", Sym(S("k")), Val(I(2)))],
+                       \* a user function that fails (after suspending): the error names the function and carries its message
+                       [name |-> S("r7"), expr |-> Call(S("h"), A)] >>, 1, NRules),
    funcs |-> << [name |-> S("f"), cacheable |-> TRUE, suspend |-> kf, script |-> Echo],
-                [name |-> S("g"), cacheable |-> FALSE, suspend |-> kg, script |-> Echo] >>,
-   syms |-> <<>>]
+                [name |-> S("g"), cacheable |-> FALSE, suspend |-> kg, script |-> Echo],
+                [name |-> S("h"), cacheable |-> FALSE, suspend |-> kg, script |-> <<[r |-> "fail", msg |-> S("h failed")]>>] >>,
+   syms |-> << <<S("k"), I(10 + kf + 3 * kg)>> >>]
 \* Shape = "full": the three-rule ruleset, inputs all equal or all different.
 \* Shape = "single": only rule r2 (one cacheable call f(a)); evaluation 1 gets a = 1, all later ones a = 2, so that
 \* an evaluation abandoned inside f(2) is followed by a fresh evaluation that calls f(2) first.
@@ -76,7 +81,7 @@ Finished == Len(evals) = MaxEvals /\ Live = {}
 \* outcomes are a function of ruleset and input only
 Deterministic ==
   \A e \in 1..Len(evals) : evals[e].status = "done" =>
-     evals[e].outcomes = DenRuleSet(rsv, evals[e].input, e, [j \in 1..2 |-> 0]).outcomes
+     evals[e].outcomes = DenRuleSet(rsv, evals[e].input, e, [j \in 1..Len(rsv.funcs) |-> 0]).outcomes
 \* the ruleset and the inputs never change
 NoSideEffects == /\ rsv = TheRS
                  /\ \A e \in 1..Len(evals) : evals[e].input = InputOf(e)
